@@ -5,6 +5,7 @@ mod canon;
 mod debug;
 mod heapgraph;
 mod natives;
+mod parse;
 mod run;
 mod threads;
 mod typeck;
@@ -18,6 +19,10 @@ use serde_json::json;
 
 thread_local! {
     static PANIC_MSG: std::cell::RefCell<Option<String>> = const { std::cell::RefCell::new(None) };
+}
+
+pub fn take_panic_msg() -> String {
+    PANIC_MSG.with(|p| p.borrow_mut().take()).unwrap_or_default()
 }
 
 fn install_panic_hook() {
@@ -143,6 +148,7 @@ fn main() {
             "threads" => threads::run_case(&case),
             "typecheck" => typeck::run_case(&case),
             "debug" => debug::run_case(&case),
+            "parse" => parse::run_case(&case),
             _ => vec![json!(["bad_mode", mode2])],
         };
         let events = if main_thread {
